@@ -79,6 +79,23 @@ def sample_paths(der, init, rng, n, depth):
     return paths
 
 
+def enumerate_paths(der, init, depth, pred):
+    """every path of exactly `depth` writer steps all of which satisfy pred(name, args)"""
+    out = []
+
+    def rec(i, p):
+        if len(p) == depth:
+            out.append(list(p))
+            return
+        for name, args, j, cur in der.get(i) or []:
+            if pred(name, args):
+                p.append((name, args, cur))
+                rec(j, p)
+                p.pop()
+    rec(init, [])
+    return out
+
+
 def run(ctx):
     t = ctx.tier
     ctx.tlc('CertReload', 'MC_C14_plain_full%s.cfg' % ('_thorough' if t == 'thorough' else ''), label='plain files, all interleavings (torn reads included)', timeout=1800)
@@ -90,13 +107,35 @@ def run(ctx):
     hist = []
     expect = {}
     for layout, module, cfg, n, depth in (('plain', 'CertReload', 'MC_C14_plain_ser%s.cfg' % ('_thorough' if t == 'thorough' else ''), 320 if t == 'quick' else 3000, 4),
+                                          ('rot', 'CertReload', 'MC_C14_plain_rot%s.cfg' % ('_thorough' if t == 'thorough' else ''), 0, 0),
                                           ('k8s', 'CertReloadK8s', 'MC_C14_k8s_ser.cfg', 120 if t == 'quick' else 600, 7)):
         gpath, g, _ = vf.tlc_graph(ctx, module, cfg, 'c14' + layout, timeout=1800)
+        rot = layout == 'rot'
+        if rot:
+            layout = 'plain'
         der = quiescent_graph(g, layout)
         for p in sample_paths(der, g['init'][0], rng, n, depth):
             hid = len(hist)
             hist.append({'id': hid, 'layout': layout, 'steps': [step_of(layout, nm, a) for nm, a, _ in p]})
             expect[hid] = [c for _, _, c in p]
+        if rot:
+            # exhaustive for rotations proper (model restricted to renaming valid versions over the files): every history of 4 steps - two
+            # complete rotations in every order of files and versions (256) - in the quick tier, of 5 and 6 steps sampled in the thorough tier
+            seenp = set()
+            depths = [4] if t == 'quick' else [4, 5, 6]
+            for dp in depths:
+                allp = enumerate_paths(der, g['init'][0], dp, lambda nm, a: True)
+                if dp > 4:
+                    rng.shuffle(allp)
+                    allp = allp[:1500]
+                for p in allp:
+                    key = repr([(nm, a) for nm, a, _ in p])
+                    if key in seenp:
+                        continue
+                    seenp.add(key)
+                    hid = len(hist)
+                    hist.append({'id': hid, 'layout': layout, 'steps': [step_of(layout, nm, a) for nm, a, _ in p], 'exhaustive_family': True})
+                    expect[hid] = [c for _, _, c in p]
     vin = os.path.join(ctx.scratch, 'c14_in.json')
     vout = os.path.join(ctx.scratch, 'c14_out.json')
     vf.write_graph(hist, vin)
